@@ -7,7 +7,7 @@
 (***************************************************************************)
 EXTENDS Util
 Props == {"C17"}
-MInit == [target |-> "", call |-> EmptyFn, pend |-> {}, runner |-> EmptyFn,
+MInit == [target |-> "", call |-> EmptyFn, pend |-> {}, runner |-> EmptyFn, stopRunner |-> "",
           bad |-> [p \in Props |-> Ok]]
 MStep(m, e, idx) ==
   CASE e.e = "Config" -> [m EXCEPT !.target = e.target]
@@ -30,11 +30,15 @@ MStep(m, e, idx) ==
     [] e.e = "RunnerEnter" ->
         [m EXCEPT !.runner = Put(@, e.loop, e.thr),
                   !.bad = IF Get(m.runner, e.loop, "") # "" THEN Flag(@, "C17", "C17_OneRunner", idx) ELSE @]
-    [] e.e = "RunnerExit" -> [m EXCEPT !.runner = Put(@, e.loop, "")]
+    [] e.e = "RunnerExit" -> [m EXCEPT !.runner = Put(@, e.loop, ""),
+                                        !.stopRunner = IF e.thr = @ THEN "" ELSE @]
+    [] e.e = "StopCalled" -> [m EXCEPT !.stopRunner = Get(m.runner, "T", "")]
     [] e.e = "LITReturned" ->
         [m EXCEPT !.bad = IF ~e.running THEN Flag(@, "C17", "C17_StartSync", idx) ELSE @]
     [] e.e = "StopReturned" ->
-        [m EXCEPT !.bad = IF e.running THEN Flag(@, "C17", "C17_StopSync", idx) ELSE @]
+        \* the stop function returns only once the run it stopped has ended (somebody else - a caller that was
+        \* waiting for the loop's lock - may legitimately be running the loop again by then)
+        [m EXCEPT !.bad = IF m.stopRunner # "" THEN Flag(@, "C17", "C17_StopSync", idx) ELSE @]
     [] e.e = "End" ->
         [m EXCEPT !.bad = IF e.status # "ok" \/ m.pend # {} THEN Flag(@, "C17", "C17_Completes", idx) ELSE @]
     [] OTHER -> m
